@@ -44,6 +44,14 @@ HARNESSES += [H(f"c01_handle_dispatch_k{k:02d}", functions=["router::final::Rout
                 bound=f"six one-route trees (`/a`) answering with distinct statuses; request {MN[k % 7]} {'/a' if k // 7 == 0 else '/b'}", crate="ohkami", tier="quick", strength="bounded", timeout=900) for k in range(14)]
 
 
+def pre_run(scratch, tier, logdir):
+    import split_verus
+    return [split_verus.run(scratch, logdir, H)]
+
+
+CHECKER_EXTRA = "; plus `verus split_extracted.rs --output-json --time` on split_next_section cut from ohkami/src/router/util.rs on every run (rules S1-S8, lib/split_verus.py): proved for slices of EVERY length"
+
+
 def stub_fmt_note():
     return "alloc::fmt::format executed (merge_statics uses format!)"
 
@@ -51,6 +59,6 @@ def stub_fmt_note():
 # c01_finalize_orders_children / c01_finalize_compresses_static_chain (harness/C01/final.rs) are written but NOT registered:
 # no answer within 15 min (sort_by + Cow<str> comparison + format! in merge_statics under CBMC); retried in session 2 with the registration order as a
 # compile-time constant and the result forgotten: 19 GB after 11 min, still no answer.
-TRUSTED = ["reference expectations per tree in harness/C01/final.rs (segment-wise matching transcribed from the property statement)"]
+TRUSTED = ["Verus 0.2026.09.13 / Z3 and the rewriting rules S1-S8 of lib/split_verus.py (safe-slice form of the unsafe sub-slicing; each rule asserts its match count; raw-pointer provenance itself stays with the bounded Kani harness)", "reference expectations per tree in harness/C01/final.rs (segment-wise matching transcribed from the property statement)"]
 ASSUMPTIONS = ["children order as the documented precondition of Node::search demands (statics in reverse alphabetical order, param last); From<base::Node> (compression, child sort), registration and merge of nested Ohkamis are not under a discharged contract (harnesses written, no answer in 15 min)",
                "percent-encoded request bytes are compared raw by the router (decoding is C07)"]
